@@ -647,3 +647,176 @@ Proof.
   - intros H. destruct (i_dj_fc g s I x (or_intror H)) as (_ & A & _). auto.
   - exact (i_dj_ir g s I x Hx).
 Qed.
+
+(** * Run-level corollaries: every executed poll of every run *)
+
+(** a failed query ends the run with the state it found *)
+Theorem run_error c g s ps t : dry c = false -> In t (run_steps c g s ps) -> qcode (st_pin t) = QERROR ->
+  st_res t = SABORT /\ rows_of (st_post t) = rows_of (st_pre t) /\
+  completed (st_post t) = completed (st_pre t) /\ inprog (st_post t) = inprog (st_pre t) /\
+  failed (st_post t) = failed (st_pre t) /\ cancelled (st_post t) = cancelled (st_pre t) /\
+  ready (st_post t) = ready (st_pre t) /\ deps (st_post t) = deps (st_pre t) /\
+  rev (evs (st_post t)) = fault_events (st_pre t) (st_pin t).
+Proof.
+  intros Hd Ht Hq. destruct (run_steps_poll c g ps s t Ht) as [E _].
+  pose proof (poll_error_fields c g (st_pre t) (st_pin t) Hd Hq) as F. rewrite E in F. cbn [fst snd] in F.
+  destruct F as (F0 & F1 & F2 & F3 & F4 & F5 & F6 & F7 & F8 & F9 & F10 & F11).
+  splits; auto. unfold rows_of. rewrite F1. reflexivity.
+Qed.
+
+Theorem run_error_last c g s ps pre t post : dry c = false ->
+  run_steps c g s ps = pre ++ t :: post -> qcode (st_pin t) = QERROR -> post = [].
+Proof.
+  intros Hd E Hq. destruct post as [|u post]; auto. exfalso.
+  assert (Ht : In t (run_steps c g s ps)) by (rewrite E; apply in_app_iff; right; left; reflexivity).
+  destruct (run_error c g s ps t Hd Ht Hq) as [A _].
+  rewrite (run_steps_running c g ps s pre t (u :: post) E) in A by discriminate. discriminate.
+Qed.
+
+(** the run aborts only on a failed query *)
+Theorem run_abort_only_on_error c g s ps t : In t (run_steps c g s ps) ->
+  (st_res t = SABORT <-> dry c = false /\ qcode (st_pin t) = QERROR).
+Proof.
+  intros Ht. destruct (run_steps_poll c g ps s t Ht) as [E _].
+  rewrite <- poll_abort_iff with (g := g) (s := st_pre t). rewrite E. reflexivity.
+Qed.
+
+Theorem run_nojobs c g s ps t : In t (run_steps c g s ps) -> qcode (st_pin t) = QNOJOBS ->
+  (st_post t, st_res t) = stage_launch c g (at_query c (st_pre t) (st_pin t)).
+Proof.
+  intros Ht Hq. destruct (run_steps_poll c g ps s t Ht) as [E _]. rewrite <- E. apply poll_nojobs_explicit. exact Hq.
+Qed.
+
+(** deleting every quiet report from every poll input changes nothing observable *)
+Definition erase_quiet (p : pin) : pin := with_reports p (filter loud (reports p)).
+
+Theorem run_erase c g ps : forall s, run c g s ps = run c g s (map erase_quiet ps).
+Proof.
+  induction ps as [|p ps IH]; intros s; cbn [run map]; auto.
+  unfold erase_quiet at 1. rewrite <- poll_erase_all_quiet.
+  destruct (poll c g s p) as [s1 r]. destruct r; try reflexivity. rewrite IH. reflexivity.
+Qed.
+
+(** a faulty NOJOBS answer likewise: its reports may be dropped *)
+Definition drop_nojobs (p : pin) : pin := match qcode p with QNOJOBS => with_reports p [] | _ => p end.
+
+Theorem run_drop_nojobs c g ps : forall s, run c g s ps = run c g s (map drop_nojobs ps).
+Proof.
+  induction ps as [|p ps IH]; intros s; cbn [run map]; auto.
+  assert (E : poll c g s (drop_nojobs p) = poll c g s p).
+  { unfold drop_nojobs. destruct (qcode p) eqn:Hq; auto. symmetry. apply poll_nojobs. exact Hq. }
+  rewrite E. destruct (poll c g s p) as [s1 r]. destruct r; try reflexivity. rewrite IH. reflexivity.
+Qed.
+
+(** the frame along a run, given that polls preserve the invariant *)
+Section RunFrame.
+  Variable c : cfg.
+  Variable g : graph.
+  Hypothesis poll_Inv : forall s p s1 r, Inv g s -> valid_reports s p -> poll c g s p = (s1, r) -> Inv g s1.
+
+  Lemma run_steps_Inv ps : forall s, Inv g s ->
+    (forall t, In t (run_steps c g s ps) -> valid_reports (st_pre t) (st_pin t)) ->
+    forall t, In t (run_steps c g s ps) -> Inv g (st_pre t).
+  Proof.
+    induction ps as [|p ps IH]; intros s I V t Ht; cbn [run_steps] in *; [contradiction|].
+    destruct (poll c g s p) as [s1 r] eqn:E.
+    assert (V0 : valid_reports s p).
+    { apply (V (s, p, s1, r)). destruct r; left; reflexivity. }
+    pose proof (poll_Inv s p s1 r I V0 E) as I1.
+    destruct r; try (destruct Ht as [<-|[]]; exact I).
+    destruct Ht as [<-|Ht]; [exact I|].
+    apply (IH s1 I1); auto. intros u Hu. apply V. right. exact Hu.
+  Qed.
+
+  Theorem run_frame ps s x t : WF g -> Inv g s ->
+    (forall t, In t (run_steps c g s ps) -> valid_reports (st_pre t) (st_pin t)) ->
+    In t (run_steps c g s ps) -> In x (inprog (st_pre t)) ->
+    (forall o, In (x, o) (delivered c (st_pin t)) -> quiet o = true) ->
+    getrec (st_post t) x = getrec (st_pre t) x /\ In x (inprog (st_post t)) /\
+    ~ In x (completed (st_post t)) /\ ~ In x (failed (st_post t)) /\ ~ In x (cancelled (st_post t)).
+  Proof.
+    intros W I V Ht Hx Hq.
+    pose proof (run_steps_Inv ps s I V t Ht) as It.
+    destruct (run_steps_poll c g ps s t Ht) as [E _].
+    pose proof (poll_frame c g (st_pre t) (st_pin t) x W It (V t Ht) Hx Hq) as F.
+    rewrite E in F. cbn [fst] in F. tauto.
+  Qed.
+End RunFrame.
+
+(** * A boolean reading of the invariant (for concrete examples) *)
+Definition inv_b (g : graph) (s : st) : bool :=
+  (length (recs s) =? length g) && (length (deps s) =? length g) &&
+  forallb (fun x => x <? length g) (completed s ++ inprog s ++ ready s ++ failed s ++ cancelled s) &&
+  nodupb (inprog s) && nodupb (ready s) &&
+  disj (completed s) (inprog s) && disj (completed s) (ready s) && disj (inprog s) (ready s) &&
+  disj (failed s ++ cancelled s) (completed s ++ inprog s ++ ready s) &&
+  forallb (fun x => subset (parents (attr g x)) (completed s)) (completed s ++ inprog s ++ ready s) &&
+  forallb (fun x => forallb (fun p => mem p (getdeps s x) || mem p (completed s)) (parents (attr g x)))
+          (seq 0 (length g)) &&
+  forallb (fun x => negb (state_eqb (status (getrec s x)) INITIALIZED)) (inprog s ++ failed s ++ cancelled s).
+
+Lemma inv_b_sound g s : inv_b g s = true -> Inv g s.
+Proof.
+  unfold inv_b. rewrite !andb_true_iff.
+  intros [[[[[[[[[[[H1 H2] H3] H4] H5] H6] H7] H8] H9] H10] H11] H12].
+  apply Nat.eqb_eq in H1, H2. rewrite forallb_forall in H3, H10, H11, H12.
+  apply nodupb_NoDup in H4, H5. rewrite disj_spec in H6, H7, H8, H9.
+  constructor; auto.
+  - intros x Hx. apply Nat.ltb_lt. apply H3. rewrite !in_app_iff. tauto.
+  - intros x Hx. specialize (H9 x). rewrite !in_app_iff in H9. tauto.
+  - intros x Hx. apply subset_incl. apply H10. rewrite !in_app_iff. tauto.
+  - intros x p Hx Hp. specialize (H11 x). rewrite In_seq_lt in H11. specialize (H11 Hx).
+    rewrite forallb_forall in H11. specialize (H11 p Hp). apply orb_true_iff in H11.
+    rewrite !mem_In in H11. exact H11.
+  - intros x Hx Hs. specialize (H12 x). rewrite !in_app_iff in H12. specialize (H12 Hx).
+    rewrite Hs in H12. discriminate.
+Qed.
+
+(** * Concrete instances (non-vacuity of the hypotheses above) *)
+Module FaultEx.
+  Definition nd (par ch : list nat) (sched : bool) : sattr :=
+    {| parents := par; children := ch; scheduled := sched; has_restart := false; rlimit := 0 |}.
+  (** 0 -> 2 <- 1, all scheduled *)
+  Definition g3 : graph := [nd [] [2] true; nd [] [2] true; nd [0; 1] [] true].
+  Definition c0 : cfg := {| throttle := 0; attempts := 1; dry := false |}.
+  Definition pin_of q reps := {| cancel_req := false; qcode := q; reports := reps; psubs := [] |}.
+  (** after the first poll steps 0 and 1 are in progress *)
+  Definition s1 : st := fst (poll c0 g3 (init g3) (pin_of QOK [])).
+
+  Lemma wf_g3 : WF g3.
+  Proof. apply wf_graph_WF. vm_compute. reflexivity. Qed.
+  Lemma inv_s1 : Inv g3 s1.
+  Proof. apply inv_b_sound. vm_compute. reflexivity. Qed.
+  Lemma inprog_s1 : inprog s1 = [0; 1].
+  Proof. vm_compute. reflexivity. Qed.
+
+  (** step 1 finishes, step 0's entry is missing / None / PENDING *)
+  Definition p_partial : pin := pin_of QOK [(1, Some FINISHED); (0, None); (0, Some PENDING)].
+  Lemma valid_partial : valid_reports s1 p_partial.
+  Proof. intros r [<-|[<-|[<-|[]]]]; vm_compute; tauto. Qed.
+  Lemma quiet_partial : forall o, In (0, o) (delivered c0 p_partial) -> quiet o = true.
+  Proof. intros o [H|[H|[H|[]]]]; inversion H; reflexivity. Qed.
+  Lemma tracked_0 : In 0 (inprog s1).
+  Proof. vm_compute. tauto. Qed.
+End FaultEx.
+
+Lemma nojobs_keeps c g s p : qcode p = QNOJOBS ->
+  poll c g s p = poll c g s {| cancel_req := cancel_req p; qcode := QNOJOBS; reports := []; psubs := psubs p |} /\
+  poll c g s p = poll c g s {| cancel_req := cancel_req p; qcode := QOK; reports := []; psubs := psubs p |} /\
+  poll c g s p = stage_launch c g (at_query c s p) /\
+  recs (at_query c s p) = recs s /\ completed (at_query c s p) = completed s /\
+  inprog (at_query c s p) = inprog s /\ failed (at_query c s p) = failed s /\
+  cancelled (at_query c s p) = cancelled s /\ ready (at_query c s p) = ready s /\ deps (at_query c s p) = deps s.
+Proof.
+  intros Hq. splits.
+  - rewrite (poll_nojobs c g s p Hq). unfold with_reports. rewrite Hq. reflexivity.
+  - apply poll_nojobs_ok. exact Hq.
+  - apply poll_nojobs_explicit. exact Hq.
+  - apply at_query_fields.
+  - apply at_query_fields.
+  - apply at_query_fields.
+  - apply at_query_fields.
+  - apply at_query_fields.
+  - apply at_query_fields.
+  - apply at_query_fields.
+Qed.
